@@ -244,6 +244,11 @@ func main() {
 	w("src/common/ed25519/vrf.go: const N", "n", "Nat", fmt.Sprint(n))
 	w("src/common/ed25519/vrf.go: suite, one, two (hex literals)", "suiteHex", "List String", leanList([]string{suite, one, two}))
 	w("src/consensus/logical/vrf_with_stake.go: init() max256 hex literal", "max256Hex", "String", leanStr(max256))
+	mgbt, okm := constInt(paramGo, "MAX_GROUP_BLOCK_TIME", map[string]int64{})
+	if !okm || mgbt < 0 {
+		die("const MAX_GROUP_BLOCK_TIME not found in param.go")
+	}
+	w("src/consensus/model/param.go: const MAX_GROUP_BLOCK_TIME", "maxGroupBlockTime", "Nat", fmt.Sprint(mgbt))
 	w("src/consensus/model/param.go: InitParam MaxQN", "maxQN", "Nat", fmt.Sprint(params["MaxQN"]))
 	w("src/consensus/model/param.go: InitParam PotentialProposal", "potentialProposal", "Nat", fmt.Sprint(params["PotentialProposal"]))
 	w("src/consensus/model/param.go: InitParam PotentialProposalMax", "potentialProposalMax", "Nat", fmt.Sprint(params["PotentialProposalMax"]))
@@ -285,6 +290,60 @@ func main() {
 	order(stakeGo, "calQn", "calQnCalls")
 	order(stakeGo, "calcStakeRatio", "calcStakeRatioCalls")
 	order(stakeGo, "verifyBlockVRF", "verifyBlockVRFCalls")
+	order(stakeGo, "genVrfMsg", "genVrfMsgCalls")
+	order(parse(fset, filepath.Join(repo, "src/consensus/logical/logical_util.go")), "CalDeltaByTime", "calDeltaCalls")
+	order(parse(fset, filepath.Join(repo, "src/consensus/base/hash.go")), "Data2CommonHash", "data2CommonHashCalls")
+	order(parse(fset, filepath.Join(repo, "src/consensus/logical/vrf_worker.go")), "genProve", "genProveCalls")
+
+	// vrf_worker.go: status constants, the two compare-and-swap transitions, the workingOn condition
+	{
+		wf := parse(fset, filepath.Join(repo, "src/consensus/logical/vrf_worker.go"))
+		src, _ := os.ReadFile(filepath.Join(repo, "src/consensus/logical/vrf_worker.go"))
+		text := func(n ast.Node) string {
+			return strings.Join(strings.Fields(string(src[fset.Position(n.Pos()).Offset:fset.Position(n.End()).Offset])), " ")
+		}
+		var consts []string
+		for _, d := range wf.Decls {
+			if g, ok := d.(*ast.GenDecl); ok && g.Tok == token.CONST {
+				for _, sp := range g.Specs {
+					vs := sp.(*ast.ValueSpec)
+					for i, nm := range vs.Names {
+						if i < len(vs.Values) {
+							consts = append(consts, nm.Name+"="+text(vs.Values[i]))
+						}
+					}
+				}
+			}
+		}
+		fmt.Fprintf(&b, "\n/-- vrf_worker.go: status constants -/\ndef workerConsts : List String :=\n  %s\n", leanList(consts))
+		cas := func(fname string) []string {
+			var out []string
+			if fn := funcByName(wf, fname); fn != nil {
+				ast.Inspect(fn.Body, func(n ast.Node) bool {
+					if c, ok := n.(*ast.CallExpr); ok && selName(c.Fun) == "atomic.CompareAndSwapInt32" && len(c.Args) == 3 {
+						out = append(out, text(c.Args[1]), text(c.Args[2]))
+					}
+					return true
+				})
+			}
+			return out
+		}
+		fmt.Fprintf(&b, "/-- markProposed: CompareAndSwap(old, new) -/\ndef markProposedCAS : List String :=\n  %s\n", leanList(cas("markProposed")))
+		fmt.Fprintf(&b, "/-- markSuccess: CompareAndSwap(old, new) -/\ndef markSuccessCAS : List String :=\n  %s\n", leanList(cas("markSuccess")))
+		ret := func(fname string) string {
+			r := ""
+			if fn := funcByName(wf, fname); fn != nil {
+				ast.Inspect(fn.Body, func(n ast.Node) bool {
+					if rs, ok := n.(*ast.ReturnStmt); ok && len(rs.Results) == 1 {
+						r = text(rs.Results[0])
+					}
+					return true
+				})
+			}
+			return r
+		}
+		fmt.Fprintf(&b, "/-- workingOn / timeout return expressions -/\ndef workingOnExpr : String := %s\ndef timeoutExpr : String := %s\n", leanStr(ret("workingOn")), leanStr(ret("timeout")))
+	}
 
 	// every non-test call site of VRFProof2Hash / decodeProof: padded first?
 	type site struct {
